@@ -335,6 +335,18 @@ Section Jar.
     | Some _ => other ++ map (fun l => (set_cookie_key, l)) (cookie_lines self)
     end.
 
+  (* self.merge_cookies(app) for a plain WSGI callable: the Set-Cookie pairs of this response are captured NOW
+     (c_headers); None = nothing to merge, the application itself is returned *)
+  Definition merge_app_headers (self : headerlist) : option headerlist :=
+    match last_cookie_line self with
+    | None | Some [] => None
+    | Some _ => Some (filter (fun kv => is_set_cookie (fst kv)) self)
+    end.
+  (* what the wrapped application passes on to the server's start_response when the application itself hands over
+     [apph]: a NEW list, headers + c_headers; the application's own list object is not touched *)
+  Definition wrapped_answer (c : option headerlist) (apph : headerlist) : headerlist :=
+    match c with None => apph | Some ch => apph ++ ch end.
+
   Inductive xop :=
   | XSet (who : bool) (a : ckargs) (overwrite : bool)
   | XDelete (who : bool) (name : text) (path domain : option text)
@@ -378,6 +390,26 @@ Section Jar.
         let '(s', r) := xstep s o in
         VList [unit_val r; hl_val (fst s'); hl_val (snd s')] :: run_response s' ops'
     end.
+
+  (* merge_cookies onto a plain WSGI application whose own header list is [apph]: the wrapped and the bare application
+     are called again and again, operations on the responses in between; after every call: what start_response
+     received, and the application's own list; at the end the application's own list once more *)
+  Inductive acall :=
+  | ACallWrapped
+  | ACallBare
+  | AOp (o : xop).
+
+  Fixpoint run_app (s : xstate) (c : option headerlist) (apph : headerlist) (calls : list acall) : list val :=
+    match calls with
+    | [] => [hl_val apph]
+    | ACallWrapped :: r => VList [hl_val (wrapped_answer c apph); hl_val apph] :: run_app s c apph r
+    | ACallBare :: r => VList [hl_val apph; hl_val apph] :: run_app s c apph r
+    | AOp o :: r => let '(s', res) := xstep s o in VList [unit_val res; hl_val (fst s')] :: run_app s' c apph r
+    end.
+
+  Definition run_merge_app (s : xstate) (pre : list xop) (apph : headerlist) (calls : list acall) : list val :=
+    let s1 := fold_left (fun s o => fst (xstep s o)) pre s in
+    hl_val (fst s1) :: run_app s1 (merge_app_headers (fst s1)) apph calls.
 End Jar.
 
 (* the instances the correspondence check runs *)
@@ -385,3 +417,5 @@ Definition run_request_u (st : option str) (ops : list rop) : val :=
   VList (VList [jar_val st; dict_val (request_cookies utf8_decode st)] :: run_request utf8_encode utf8_decode st ops).
 Definition run_response_u (s : list (str * str) * list (str * str)) (ops : list xop) : val :=
   VList (run_response utf8_encode s ops).
+Definition run_merge_app_u (c : (list (str * str) * list (str * str)) * list xop * (list (str * str) * list acall)) : val :=
+  VList (run_merge_app utf8_encode (fst (fst c)) (snd (fst c)) (fst (snd c)) (snd (snd c))).
